@@ -13,7 +13,7 @@ VERIF = os.path.dirname(HERE)
 def run(repo="/repo", build=None, twin=False, rlimit=None, threads=16, extra_args=()):
     build = build or os.path.join(VERIF, "build")
     os.makedirs(build, exist_ok=True)
-    tag = ".twin" if twin else ""
+    tag = "_twin" if twin else ""
     out_rs = os.path.join(build, "rtcp%s.rs" % tag)
     meta_path = os.path.join(build, "rtcp%s.meta.json" % tag)
     t0 = time.time()
@@ -76,19 +76,32 @@ def run(repo="/repo", build=None, twin=False, rlimit=None, threads=16, extra_arg
         base = os.path.basename(out_rs)
         spans = [s for s in spans if os.path.basename(s.get("file_name", "")) == base]
         prim = [s for s in spans if s.get("is_primary")]
+        kind0 = classify(msg)
         ploc = prim[0]["line_start"] if prim else (spans[0]["line_start"] if spans else None)
         labels = []
+        callee_req = []
         twin_hit = None
+        body_loc = None
         for s in spans:
+            lab = s.get("label") or ""
+            if "at the end of the function body" in lab or "at this exit" in lab or "at this loop exit" in lab:
+                body_loc = s["line_start"]
+            is_callee_req = "failed precondition" in lab
             for ln in range(s["line_start"], s["line_end"] + 1):
-                if ln in label_lines and label_lines[ln] not in labels:
-                    labels.append(label_lines[ln])
+                if ln in label_lines:
+                    if is_callee_req:
+                        if label_lines[ln] not in callee_req:
+                            callee_req.append(label_lines[ln])
+                    elif label_lines[ln] not in labels:
+                        labels.append(label_lines[ln])
                 if ln in twin_lines:
                     twin_hit = twin_lines[ln]
+        if kind0 == "postcondition" and body_loc is not None:
+            ploc = body_loc
         f = fn_at(ploc) if ploc else None
         kind = classify(msg)
         ent = {"message": msg, "kind": kind, "line": ploc, "fn": f[1] if f else None,
-               "repo_loc": ("%s:%d" % (f[2], f[3])) if f else None, "labels": labels, "twin": twin_hit,
+               "repo_loc": ("%s:%d" % (f[2], f[3])) if f else None, "labels": labels, "callee_requires": callee_req, "twin": twin_hit,
                "span_text": (prim[0]["text"][0]["text"].strip() if prim and prim[0].get("text") else ""),
                "span_labels": [s.get("label") for s in spans if s.get("label")],
                "rendered": (d.get("rendered") or "")[:3000]}
